@@ -200,9 +200,12 @@ def check_squash(acc, np, sim, X, method, r, x0, base, cq, keep_sign):
         if why is None and not keep_sign and r is not None and cq is False and (method == 'logistic' or not x0):
             # (an explicit non-zero x0 is documented as "not supported" for gaussian/exponential: whether it is ignored is not
             #  part of C19, so only monotonicity, range and reproducibility are judged there)
-            xx0 = x0_used if method == 'logistic' else 0.0
+            # an explicitly given midpoint is the one of the formula (a derived one is taken from the report)
+            xx0 = (x0 if x0 is not None else x0_used) if method == 'logistic' else 0.0
+            if method == 'logistic' and x0 is not None and not close(float(x0_used), float(x0)):
+                why = 'explicit x0=%r but the reported midpoint is %r' % (x0, core.jsonable(x0_used))
             exp = ref_squash(flat, method, r, float(xx0), base)
-            if not all(close(x, y) for x, y in zip(Sf, exp)):
+            if why is None and not all(close(x, y) for x, y in zip(Sf, exp)):
                 why = 'differs from the documented formula: expected %r' % (exp,)
         if why is None:
             kw2 = {'method': method, 'r': r_used, 'keep_sign': keep_sign}
